@@ -138,10 +138,12 @@ theorem exec_ok {s s' : State} {op : Op} {rel : Coins} (inv : StoreInv s) (h : e
       | ok s1 =>
         simp only [hb, Except.map, Except.ok.injEq, Prod.mk.injEq] at h
         obtain ⟨rfl, _⟩ := h
-        apply stepOK_of_transferred (bankTransfers_ok inv hb)
-        · intro x hx d
+        have hnn : ∀ x ∈ [(⟨f, t, c⟩ : Xfer)], ∀ d, 0 ≤ Coins.amountOf x.amt d := by
+          intro x hx d
           simp only [List.mem_singleton] at hx; subst hx
           exact coinsValid_nonneg hv d
+        apply stepOK_of_transferred (bankTransfers_ok inv hnn hb)
+        · exact hnn
         · intro hs x hx
           simp only [List.mem_singleton] at hx; subst hx
           simpa [Op.holderNeverSigns] using hs
@@ -161,10 +163,12 @@ theorem exec_ok {s s' : State} {op : Op} {rel : Coins} (inv : StoreInv s) (h : e
         obtain ⟨rfl, _⟩ := h
         simp only [Bool.or_eq_false_iff, Bool.not_eq_false'] at hv
         have hall := List.all_eq_true.mp hv.2
-        apply stepOK_of_transferred (bankTransfers_ok inv hb)
-        · intro x hx d
+        have hnn : ∀ x ∈ outs.map (fun o => (⟨f, o.1, o.2⟩ : Xfer)), ∀ d, 0 ≤ Coins.amountOf x.amt d := by
+          intro x hx d
           obtain ⟨o, ho, rfl⟩ := List.mem_map.mp hx
           exact coinsValid_nonneg (hall o ho) d
+        apply stepOK_of_transferred (bankTransfers_ok inv hnn hb)
+        · exact hnn
         · intro hs x hx
           obtain ⟨o, ho, rfl⟩ := List.mem_map.mp hx
           simpa [Op.holderNeverSigns] using hs
@@ -185,10 +189,12 @@ theorem exec_ok {s s' : State} {op : Op} {rel : Coins} (inv : StoreInv s) (h : e
         obtain ⟨rfl, _⟩ := h
         simp only [Bool.or_eq_false_iff, Bool.not_eq_false'] at hv
         have hall := List.all_eq_true.mp hv.2
-        apply stepOK_of_transferred (bankTransfers_ok inv hb)
-        · intro x hx d
+        have hnn : ∀ x ∈ ins.map (fun i => (⟨i.1, t, i.2⟩ : Xfer)), ∀ d, 0 ≤ Coins.amountOf x.amt d := by
+          intro x hx d
           obtain ⟨o, ho, rfl⟩ := List.mem_map.mp hx
           exact coinsValid_nonneg (hall o ho) d
+        apply stepOK_of_transferred (bankTransfers_ok inv hnn hb)
+        · exact hnn
         · intro hs x hx
           obtain ⟨o, ho, rfl⟩ := List.mem_map.mp hx
           simp only [Op.holderNeverSigns, List.all_eq_true, decide_eq_true_eq] at hs
@@ -281,7 +287,9 @@ theorem exec_ok {s s' : State} {op : Op} {rel : Coins} (inv : StoreInv s) (h : e
           simp only [hq, Except.map, Except.ok.injEq, Prod.mk.injEq] at h
           obtain ⟨rfl, _⟩ := h
           obtain ⟨rfl, _, _⟩ := bankTransfers_bypass_ok hb
-          have Q := addQuarantinedCoins_ok (inv_with_bank inv _) hq
+          have hvv : coinsValid amt = true := by
+            simp only [Bool.or_eq_false_iff, Bool.not_eq_false'] at hv; exact hv.2
+          have Q := addQuarantinedCoins_ok (inv_with_bank inv _) (coinsValid_nonneg hvv) hq
           have hsl : payer ≠ s.holder → ∀ d, slack s2 d = slack s d := by
             intro hp d
             unfold slack
@@ -321,7 +329,10 @@ theorem exec_transfer {s s' : State} {op : Op} {rel : Coins} (inv : StoreInv s) 
       | ok s1 =>
         simp only [hb, Except.map, Except.ok.injEq, Prod.mk.injEq] at h
         obtain ⟨rfl, _⟩ := h
-        exact bankTransfers_ok inv hb
+        refine bankTransfers_ok inv ?_ hb
+        intro x hx d
+        simp only [Op.xfers, List.mem_singleton] at hx; subst hx
+        exact coinsValid_nonneg hv d
   | msend f outs =>
     simp only [exec, msgMultiSend] at h
     cases hv : (outs.isEmpty || !outs.all fun o => coinsValid o.2)
@@ -331,7 +342,13 @@ theorem exec_transfer {s s' : State} {op : Op} {rel : Coins} (inv : StoreInv s) 
       | ok s1 =>
         simp only [hb, Except.map, Except.ok.injEq, Prod.mk.injEq] at h
         obtain ⟨rfl, _⟩ := h
-        exact bankTransfers_ok inv hb
+        simp only [Bool.or_eq_false_iff, Bool.not_eq_false'] at hv
+        have hall := List.all_eq_true.mp hv.2
+        refine bankTransfers_ok inv ?_ hb
+        intro x hx d
+        simp only [Op.xfers] at hx
+        obtain ⟨o, ho, rfl⟩ := List.mem_map.mp hx
+        exact coinsValid_nonneg (hall o ho) d
     · simp [hv, Except.map] at h
   | iosend ins t =>
     simp only [exec, ioSend] at h
@@ -342,7 +359,13 @@ theorem exec_transfer {s s' : State} {op : Op} {rel : Coins} (inv : StoreInv s) 
       | ok s1 =>
         simp only [hb, Except.map, Except.ok.injEq, Prod.mk.injEq] at h
         obtain ⟨rfl, _⟩ := h
-        exact bankTransfers_ok inv hb
+        simp only [Bool.or_eq_false_iff, Bool.not_eq_false'] at hv
+        have hall := List.all_eq_true.mp hv.2
+        refine bankTransfers_ok inv ?_ hb
+        intro x hx d
+        simp only [Op.xfers] at hx
+        obtain ⟨o, ho, rfl⟩ := List.mem_map.mp hx
+        exact coinsValid_nonneg (hall o ho) d
     · simp [hv, Except.map] at h
   | bsend f t c => simp [Op.xfers] at hop
   | optIn a => simp [Op.xfers] at hop
